@@ -287,6 +287,36 @@ example : (calculateTxL1Cost
     { L1Info.default with l1BaseFee := 1000, l1BaseFeeScalar := 1000, l1BlobBaseFee := some 1000, l1BlobBaseFeeScalar := some 1000 }
     [0xfa, 0xca, 0xde] FJORD).1 = 1700 := by decide +kernel
 
+/-- **The L1 cost is fresh for every transaction.** Any number of transactions on ONE `Evm`, each committed,
+with any L1Block slots in the database at each of them (`optimism::clear` sets `l1_block_info = None` after every
+transaction, so the next regular transaction fetches the slots again and starts with an empty `tx_l1_cost`
+cache): the outcome of the last transaction `p` of ANY history `ps ++ [p]` is the single-transaction function of
+`p` alone — its fields (among them its own envelope), the slots at `p`, its frame result — and of the committed
+database state; no earlier envelope, earlier slot value or cached cost enters. With `l1_cost_uses_enveloped_tx`:
+the cost validated, debited and credited to the L1 fee vault for transaction k is
+`calculate_tx_l1_cost(envelope_k)` under `try_fetch(slots at k)`. -/
+theorem l1_cost_cache_fresh_per_tx (ps : List Step) (p : Step) (st : St) :
+    runHistory clearCtx st none (ps ++ [p]) =
+      runHistory clearCtx st none ps ++ [transact p.tx p.slots (stateAfter st ps) p.fr] := by
+  rw [runHistory_fresh, runHistory_fresh, runHistoryFresh_last]
+
+def l1VaultOf : Outcome → Option Nat
+  | .done _ _ _ st => some (st.bal L1_FEE_RECIPIENT)
+  | _ => none
+
+def regTx (env : List Nat) : Tx := { exTx with spec := ECOTONE, txNonce := none, enveloped := some env }
+def regStep (env : List Nat) : Step := { tx := regTx env, slots := exSlots, fr := exFr }
+
+/-- **Regression (the seeded `clear` that keeps `l1_block_info` until the next deposit).** Two regular Ecotone
+transactions with envelopes of 3 and 6 non-zero bytes (costs 51 and 102) on one `Evm`: with the code's `clear`
+the L1 fee vault holds 51 and then 153; with a `clear` that keeps `l1_block_info`, the cached cost 51 of the
+first transaction is charged to the second as well (vault 102) although its own envelope costs 102. -/
+theorem l1_cost_cache_keep_regression :
+    (runHistory clearCtx exPre none [regStep [0xfa, 0xca, 0xde], regStep [1, 2, 3, 4, 5, 6]]).map l1VaultOf
+      = [some 51, some 153] ∧
+    (runHistory clearCtxKeep exPre none [regStep [0xfa, 0xca, 0xde], regStep [1, 2, 3, 4, 5, 6]]).map l1VaultOf
+      = [some 51, some 102] := by decide +kernel
+
 /-! ## deposits -/
 
 /-- **A deposit with gas price 0 mints exactly its mint.** Whatever the first frame does (`exec`), the state
